@@ -268,7 +268,7 @@ def part_machine(ctx, examples, steps):
 PARTS = {"generated": part_generated, "machine": part_machine}
 REPLAY = {"generated": check_case, "machine": check_case}
 KNOWN = {}
-FLOORS = {"nontrivial": ("", 0.4)}
+FLOORS = {"nontrivial": ("", 0.2)}
 
 
 def plan(tier, seed):
